@@ -1175,5 +1175,9 @@ fn main() {
         run.sample(json!({"call": format!("iter_neighbours_8({n},{m},{i},{j})"), "yielded": format!("{:?}", nb_real("neighbours_8", n, m, i, j))}));
         run.sample(json!({"call": format!("iter_neighbours_4d({n},{m},{i},{j})"), "yielded": format!("{:?}", nb_real("neighbours_4d", n, m, i, j))}));
     }
+    if std::env::var("VCORE_CHILD").is_err() {
+        // the same enumeration in a build with debug assertions and overflow checks
+        run.run_dbg_child();
+    }
     run.finish(&confirm)
 }
